@@ -46,13 +46,14 @@ impl TraitImpl for Debug {
 		let debug_name = data.ident.unraw().to_string();
 
 		match data.simple_type() {
-			SimpleType::Struct(_) => {
+			SimpleType::Struct(fields) => {
 				let self_ident = data.iter_self_ident(**trait_);
 				let debug_fields = data
 					.iter_field_ident(**trait_)
 					.map(|field| field.to_string());
 
-				let finish = if data.any_skip_trait(**trait_) {
+				// Only signal omitted fields if there are any fields to omit.
+				let finish = if data.any_skip_trait(**trait_) && !fields.fields.is_empty() {
 					quote! { finish_non_exhaustive }
 				} else {
 					quote! { finish }
